@@ -128,12 +128,15 @@ def mutants(args, seed):
         # the pristine copy must stay silent
         subprocess.run(["git", "-C", "/repo", "worktree", "add", "-q", "--detach", scratch, "HEAD"], check=True)
         all_dets = sorted(set(d for _, _, _, dets in patches for d in dets))
+        # a check that alarms on the pristine copy proves nothing about a patch
+        pristine_bad = set()
         for det in all_dets:
             rr = subprocess.run([check, det, "--tier", "quick"], env=env, capture_output=True, text=True)
             D.log("pristine copy, %s: exit %d" % (det, rr.returncode))
             if rr.returncode != 0:
                 D.log(rr.stdout[-1500:])
                 results.append(("pristine-" + det, "MISSED"))
+                pristine_bad.add(det)
         for name, patch, prop, detectors in patches:
             subprocess.run(["git", "-C", scratch, "checkout", "-q", "--", "."], check=True)
             subprocess.run(["git", "-C", scratch, "clean", "-fdq"], check=True)
@@ -144,6 +147,8 @@ def mutants(args, seed):
                 continue
             caught_by = []
             for det in detectors:
+                if det in pristine_bad:
+                    continue
                 rr = subprocess.run([check, det, "--tier", "quick"], env=env, capture_output=True, text=True)
                 if rr.returncode == 1 and "VIOLATION property=%s" % det in rr.stdout:
                     caught_by.append(det)
